@@ -73,6 +73,15 @@ mutual
     | .list [.atom "for", n, b] => do pure (.forLoop (← n.nat?) (← toList b))
     | .list (.atom "case" :: items) => do pure (.caseC (← items.mapM toCaseItem))
     | .list [.atom "def", n, c] => do pure (.fundef (← toName n) (← toCmd c))
+    | .list [.atom "experr"] => some .expErr
+    | .list [.atom "asgerr"] => some .assignErr
+    | .list [.atom "rederr", .atom k] => do
+        let k ← match k with
+          | "regular" => some RedirKind.regular | "special" => some .special | "function" => some .function
+          | "external" => some .external | "compound" => some .compound | "absent" => some .absent | _ => none
+        pure (.redirErr k)
+    | .list [.atom "specerr", w, st] => do pure (.specialErr ((← w.nat?) != 0) (← st.nat?))
+    | .list [.atom "trapexit", b] => do pure (.trapExit (← toList b))
     | _ => none
 
   partial def toElifs : List Sx → Option (List (List Item × List Item))
@@ -105,9 +114,11 @@ mutual
     | _ => none
 end
 
-/-- a script: list of command lines -/
-def toScript : Sx → Option (List (List Item))
-  | .list ls => ls.mapM toList
+/-- a script: list of command lines; the atom `synerr` stands for a line that does not parse -/
+def toScript : Sx → Option (List Line)
+  | .list ls => ls.mapM fun
+    | .atom "synerr" => some Line.syntaxError
+    | l => (toList l).map Line.cmds
   | _ => none
 
 def showTrace (t : List (Nat × Nat)) : String :=
